@@ -14,6 +14,7 @@ import numpy as np
 
 from mc import userfns
 
+uf = userfns
 _ENV = {"np": np, "uf": userfns}
 
 
@@ -263,6 +264,16 @@ def _mk():
     add("add_where_out", "uf.add_where_out({m}, {0})", cond="a0.dtype.kind=='f'", fam="inplace", rewrite=False)
     add("add_where_out_self", "uf.add_where_out_self({m}, {0})", cond="a0.dtype.kind=='f'", fam="inplace", rewrite=False)
     add("sin_out_self", "uf.sin_out_self({m}, {0})", exact=False, cond="a0.dtype.kind=='f'", fam="inplace", rewrite=False)
+
+    # ---- more parameter-variant siblings (tokenizer / hand-built-name collisions)
+    add("sum_se3", "{m}.sum({0}, split_every=3)", "{m}.sum({0})", exact=False, fam="red", rewrite=False)
+    add("sum_se4", "{m}.sum({0}, split_every=4)", "{m}.sum({0})", exact=False, fam="red", rewrite=False)
+    add("wred_a", "{m}.reduction({0}, uf.w_chunk, uf.w_agg, axis=0, dtype='f8', weights=np.arange({0}.shape[0]) + 1.0)", "({0}.T * (np.arange({0}.shape[0]) + 1.0)).T.sum(axis=0)", exact=False, cond=NE + " and a0.dtype.kind=='f' and a0.ndim==1", fam="red", rewrite=False)
+    add("wred_b", "{m}.reduction({0}, uf.w_chunk, uf.w_agg, axis=0, dtype='f8', weights=np.arange({0}.shape[0]) * 2.0)", "({0}.T * (np.arange({0}.shape[0]) * 2.0)).T.sum(axis=0)", exact=False, cond=NE + " and a0.dtype.kind=='f' and a0.ndim==1", fam="red", rewrite=False)
+    add("mbk_a", "{m}.map_blocks(uf.mbk, {0}, k=2.0, dtype={0}.dtype)", "uf.mbk({0}, 2.0)", cond="a0.dtype.kind=='f'", fam="mapblocks", rewrite=False)
+    add("mbk_b", "{m}.map_blocks(uf.mbk, {0}, k=3.0, dtype={0}.dtype)", "uf.mbk({0}, 3.0)", cond="a0.dtype.kind=='f'", fam="mapblocks", rewrite=False)
+    for _rn, _rs in uf.RANDOM_SRC.items():
+        add(_rn, _rs.replace("da.", "{m}.").replace("{shape}", "{0}.shape"), "uf.clean_ref('" + _rn + "', {0}.shape)", cond="a0.shape in uf.RANDOM_SHAPES and a0.dtype.kind=='f'", fam="random", rewrite=False, exact=True)
 
     # ---- binary ops over two pool members
     add("b_add", "{0} + {1}", arity=2, fam="bin")
